@@ -17,6 +17,15 @@ pub fn const_hmac_vec(digest: openssl::hash::MessageDigest, _key: &[u8], _data: 
     }
 }
 
+#[cfg(not(verif_playback))]
+pub fn reference_mac(len: usize, _key: &[u8], _data: &[u8]) -> Vec<u8> {
+    vec![0x5Au8; len]
+}
+#[cfg(verif_playback)]
+pub fn reference_mac(len: usize, key: &[u8], data: &[u8]) -> Vec<u8> {
+    crate::c13_keys::ref_digest(len, key, data)
+}
+
 /// Faithful model of `openssl::memcmp::eq`: equal-length slices, true iff all bytes equal.
 pub fn memcmp_eq(a: &[u8], b: &[u8]) -> bool {
     assert!(a.len() == b.len(), "openssl::memcmp::eq panics on slices of different length");
@@ -40,25 +49,35 @@ macro_rules! mac_compare {
         #[kani::stub(::std::fmt::format, crate::stubs::fmt_format)]
         #[kani::unwind($unw)]
         pub fn $name() {
-            let signature: [u8; $len] = kani::any();
+            // the signature under test = the MAC xor a symbolic difference pattern; under the model checker the MAC is the
+            // constant stand-in, in a native replay it is the real OpenSSL HMAC (so a counterexample is confirmed on real crypto)
+            let delta: [u8; $len] = kani::any();
             let data: [u8; 3] = kani::any();
             let key: [u8; 2] = kani::any();
-            let accepted = $verify(&key, &data, &signature);
+            let mac = reference_mac($len, &key, &data);
+            let mut signature = [0u8; $len];
             let mut all_equal = true;
             let mut i = 0;
             while i < $len {
-                if signature[i] != 0x5A {
+                signature[i] = mac[i] ^ delta[i];
+                if delta[i] != 0 {
                     all_equal = false;
                 }
                 i += 1;
             }
+            let accepted = $verify(&key, &data, &signature);
             assert!(accepted == all_equal, "a signature is accepted exactly when every byte equals the computed MAC");
             // a signature that is one byte short or long is never accepted
             assert!(!$verify(&key, &data, &signature[..$len - 1]), "a truncated signature is rejected");
-            let longer: [u8; $len + 1] = [0x5A; $len + 1];
+            let mut longer = [0u8; $len + 1];
+            let mut i = 0;
+            while i < $len {
+                longer[i] = mac[i];
+                i += 1;
+            }
             assert!(!$verify(&key, &data, &longer), "an extended signature is rejected");
             kani::cover!(accepted, "the genuine signature is accepted");
-            kani::cover!(!accepted && signature[0] == 0x5A && signature[$len - 2] == 0x5A, "a change in the last byte is rejected");
+            kani::cover!(!accepted && delta[0] == 0 && delta[$len - 2] == 0, "a change in the last byte is rejected");
         }
     };
 }
